@@ -41,3 +41,117 @@ PROPS = {
                         "a connection's session table is only touched by the thread serving that connection"],
     },
 }
+
+_DISPATCH_MODS = ["specs.socket_model", "specs.pystruct", "specs.seqdict", "specs.opaque", "specs.daemon_model", "contracts.socketutil",
+                  "contracts.protocol", "contracts.server_handshake", "contracts.server_instances", "contracts.servers",
+                  "contracts.server_dispatch", "contracts.exception_response", "contracts.connection_close"]
+_HR = "Pyro5.server.Daemon.handleRequest#body"
+_COMMON_ASSUME = ["user code called back by Pyro (methods, accessors, validators, hooks, creators) may raise any Exception subclass and returns arbitrary values, "
+                  "but does not reach into Pyro-internal state beyond what a contract states (DESIGN 4.4)",
+                  "BaseExceptions that are not Exceptions (KeyboardInterrupt, SystemExit) are modelled only where the code names them",
+                  "serializer libraries are uninterpreted (dumps/loads may raise); the socket obeys specs/socket_model.py",
+                  "callees are represented by their contracts; a contract marked 'declared' (contracts/servers.py, server_dispatch.py *Decl) is the callee's "
+                  "interface as assumed by this caller and is verified where its own property lists it"]
+
+PROPS.update({
+    "C08": {
+        "modules": _DISPATCH_MODS,
+        "contracts": ["Pyro5.server.Daemon._handshake", "Pyro5.protocol.recv_stub", "Pyro5.svr_threads.ClientConnectionJob.handleConnection",
+                      "Pyro5.svr_threads.ClientConnectionJob.__call__", "Pyro5.svr_multiplex.SocketServer_Multiplex._handleConnection", _HR],
+        "harness": "replay/dispatch.py",
+        "explanation": "_handshake: CONNECTOK is sent (and True returned) only after a CONNECT message was received, the validator returned and the requested "
+                       "object is registered; every other outcome sends exactly one CONNECTFAIL carrying str(reason), or fails while building/sending it; no object "
+                       "method runs.  Thread job / multiplex accept path: handleRequest is reached (connection registered) only after _handshake returned True, a refused "
+                       "connection is closed.  handleRequest: user code runs only for MSG_INVOKE.",
+        "assumptions": _COMMON_ASSUME + ["multiplex events(): the selector holds only connections handed back by _handleConnection (composition, DESIGN C08)",
+                                         "socket pairs handed to a daemon pre-connected are exempt (property text)"],
+    },
+    "C05": {
+        "modules": _DISPATCH_MODS,
+        "contracts": ["Pyro5.svr_threads.ClientConnectionJob.__call__", "Pyro5.svr_threads.ClientConnectionJob.handleConnection",
+                      "Pyro5.svr_threads.ClientConnectionJob.denyConnection", "Pyro5.svr_multiplex.SocketServer_Multiplex.handleRequest",
+                      "Pyro5.svr_multiplex.SocketServer_Multiplex._handleConnection", "Pyro5.server.Daemon._handshake", "Pyro5.protocol.recv_stub",
+                      "Pyro5.server.Daemon._sendExceptionResponse#body"],
+        "harness": "replay/dispatch.py",
+        "explanation": "exception containment proved against the weakest callee contracts (handleRequest / _handshake / _clientDisconnect may raise ANY Exception): "
+                       "nothing escapes the per-connection job of the thread server (so the worker always returns to the pool), the refusal path, the multiplex "
+                       "per-connection handler and accept path (except ConnectionClosedError when the listening socket itself is gone); recv_stub raises only its declared "
+                       "classes on arbitrary bytes; an error reply is produced for any exception that can be reported.",
+        "assumptions": _COMMON_ASSUME + ["liveness (a silent peer blocking a read without COMMTIMEOUT), resource exhaustion and the scheduler are outside the technique",
+                                         "the accept loops SocketServer_*.events/loop around these handlers are covered by the bounded native harness only"],
+    },
+    "C13": {
+        "modules": _DISPATCH_MODS,
+        "contracts": ["Pyro5.svr_threads.ClientConnectionJob.__call__", "Pyro5.svr_multiplex.SocketServer_Multiplex.handleRequest",
+                      "Pyro5.svr_multiplex.SocketServer_Multiplex._handleConnection", "Pyro5.socketutil.SocketConnection.close#body", _HR],
+        "harness": "replay/dispatch.py",
+        "explanation": "thread job: for an accepted connection every exit path (any exception class out of handleRequest, exception in the hook) runs the disconnect "
+                       "handling exactly once and then closes the connection exactly once; a refused connection is closed once without hook.  close(): every tracked "
+                       "resource closed exactly once whatever the others raise, nothing else closed, resource set emptied, session instances dropped, socket closed even if "
+                       "shutdown() raised, keep_open is a no-op.  handleRequest: constructors of session/percall instances run with the call context already naming this "
+                       "connection (so resources they track land on it).  multiplex: handleRequest(conn) reports inactive exactly when the request raised.",
+        "assumptions": _COMMON_ASSUME + ["multiplex events(): inactive -> _clientDisconnect, unregister, close is three straight-line statements checked by the native harness only",
+                                         "daemon shutdown with open connections and GC-driven __del__ ordering are outside the claim"],
+    },
+    "C12": {
+        "modules": _DISPATCH_MODS,
+        "contracts": [_HR, "Pyro5.server.Daemon._handshake", "Pyro5.server.Daemon._sendExceptionResponse#body"],
+        "harness": "replay/dispatch.py",
+        "explanation": "at every point where handleRequest runs user code the thread-local context holds this request's connection, sequence number, flags, serializer "
+                       "id, annotations and a correlation id set during this request; every message sent by handleRequest, _handshake and _sendExceptionResponse carries only "
+                       "daemon annotations plus annotations written during this request (ghost provenance on the annotation dict objects); the response-annotation dict "
+                       "left by an earlier request is replaced by a fresh object at the start of every request and handshake (identity, which also cuts the sharing with a "
+                       "oneway thread).",
+        "assumptions": _COMMON_ASSUME + ["threading.local gives each thread its own context object", "the oneway thread's to_global/from_global copy and the client side "
+                                         "(Proxy._pyroInvoke resets/sets response annotations) are covered by the bounded native harness only"],
+    },
+    "C07": {
+        "modules": _DISPATCH_MODS,
+        "contracts": ["Pyro5.server.Daemon._sendExceptionResponse#body", _HR],
+        "harness": "replay/dispatch.py",
+        "explanation": "_sendExceptionResponse: exactly one RESULT message with the exception flag, the request's sequence number and serializer is sent; its payload is "
+                       "the serialised exception with the traceback attached, or - for ANY exception raised by the first dumps - the serialised fallback PyroError built "
+                       "from str()/type() of the original; it fails only for an unknown serializer id, a fallback that cannot be serialised either, a raising annotations() "
+                       "hook, an oversized reply or a failing send.  handleRequest: a non-oneway request is answered exactly once on every normal return (result or error "
+                       "reply carrying the request's sequence number), never silently.",
+        "assumptions": _COMMON_ASSUME + ["the class/args/attribute round trip through class_to_dict / dict_to_class and the serializer libraries is covered by the bounded native "
+                                         "harness only (4 serializers x builtin and Pyro exception classes)"],
+    },
+    "C11": {
+        "modules": _DISPATCH_MODS,
+        "contracts": [_HR],
+        "harness": "replay/dispatch.py",
+        "explanation": "batch branch of handleRequest, loop invariant over the calls made so far: one result and one invocation per call (ghost counters), each call "
+                       "goes through the same exposure gate and the same invocation as a single call; the loop stops at the first failing call whose wrapper is the last "
+                       "result; a gate refusal ends the whole request before the refused call runs; a oneway batch sends nothing.",
+        "assumptions": _COMMON_ASSUME + ["the client side (BatchProxy collecting calls in order, replaying results, re-raising the wrapper) and `same effect as sequential calls` on a "
+                                         "stateful object are covered by the bounded native harness only"],
+    },
+    "C16": {
+        "modules": _DISPATCH_MODS,
+        "contracts": [_HR],
+        "harness": "replay/dispatch.py",
+        "explanation": "dispatch part: the object a request reaches is the registry entry of the request's object id (weak reference unpacked, class instantiated via "
+                       "_getInstance); 'unknown object' is answered only when that entry is None; every invoked member was resolved on that object.",
+        "assumptions": _COMMON_ASSUME + ["register/unregister/uriFor/proxyFor and the auto-proxy hook are covered by the bounded native harness only (histories incl. falsy, weak, "
+                                         "re-used ids)", "GC timing of weak references"],
+    },
+    "C02": {
+        "modules": _DISPATCH_MODS,
+        "contracts": [_HR],
+        "harness": "replay/dispatch.py",
+        "explanation": "dispatch part: in all five request kinds user code is reached only through _get_attribute / _get_exposed_property_value / _set_exposed_property_value "
+                       "applied to the name taken from the request and the dispatched object (no other path to a call), a refused non-oneway request gets an error reply and a "
+                       "oneway request none.",
+        "assumptions": _COMMON_ASSUME + ["the three gate functions and the metadata computation against the CPython object model are covered by the bounded native harness "
+                                         "(class shapes x names x request kinds) in this version"],
+    },
+    "C03": {
+        "modules": _DISPATCH_MODS,
+        "contracts": [_HR, "Pyro5.protocol.recv_stub", "Pyro5.socketutil.SocketConnection.recv", "Pyro5.socketutil.SocketConnection.send"],
+        "harness": "replay/dispatch.py",
+        "explanation": "server side: a reply (result or error) carries the request's sequence number and serializer id, a non-oneway request gets exactly one, a oneway "
+                       "request none, a non-batch request invokes at most one member; reads consume exactly one message (C06/C17 contracts).",
+        "assumptions": _COMMON_ASSUME + ["delivery semantics of real TCP, forged matching sequence numbers"],
+    },
+})
